@@ -5,6 +5,7 @@ byte length, every real slot after the first starts at a multiple of the erase-b
 an empty key and an all-zero value, decoded real pairs == supplied pairs in order; the whole file must also be
 one well-formed indefinite map for the independent decoder.
 """
+import contextlib
 import os
 
 from .. import drive
@@ -284,10 +285,20 @@ def file_case(rec, n):
             slots = slots_for("p", r.randrange(1, 6))
             if kind == "duplicate-uri":
                 slots.append((slots[0][0], b"other"))
-            inputs = [f"{u},{mkfile(d)}" for u, d in slots]
             out = drive.fresh_out(wd, ".cache")
             tmp.append(out)
-            exc = run("from_payloads", out, eb=eb, input=inputs)
+            pipe_at = r.randrange(len(slots)) if (kind == "from_payloads" and route != "sub" and r.random() < 0.25) \
+                else None
+            with contextlib.ExitStack() as stack:
+                inputs = []
+                for si, (u, d) in enumerate(slots):
+                    if si == pipe_at:
+                        # this payload arrives through a pipe (`<(...)`, /dev/stdin): readable once, stat size 0
+                        inputs.append(f"{u},{stack.enter_context(drive.as_pipe(d))}")
+                        rec.count("file:payload-through-a-pipe")
+                    else:
+                        inputs.append(f"{u},{mkfile(d)}")
+                exc = run("from_payloads", out, eb=eb, input=inputs)
             if kind == "duplicate-uri":
                 rec.case(f"dup/{n}".encode(), True)
                 if exc is None:
